@@ -54,7 +54,7 @@ class Contract:
                  use_at_calls=True, applicable=None, inline_fallback=False,
                  recursive_ok=False, fresh_result=False, may_raise_other=False,
                  opaque=None, merge=True, cuts=None, ghosts=None, ghost_init=None,
-                 on_yield=None, note=""):
+                 on_yield=None, check_frames=True, note=""):
         self.key = key
         self.requires = _lst(requires)
         self.ensures = _lst(ensures)
@@ -78,6 +78,7 @@ class Contract:
         self.ghosts = dict(ghosts or {})    # free (universally quantified) constants
         self.ghost_init = ghost_init        # callable(E, st, env): ghost variables
         self.on_yield = on_yield            # callable(E, st, env, value) at each yield
+        self.check_frames = check_frames
         self.cuts = list(cuts or [])   # [(source-prefix, [assertion texts])]
         self.note = note
 
@@ -215,6 +216,7 @@ class Engine(ExprMixin, CallMixin, StmtMixin):
         self.opaque = {n: z3.Function("U_" + n, z3.IntSort(), z3.IntSort())
                        for n in c.opaque}
         self.merge = c.merge
+        self.check_frames = c.check_frames
         self.ghost_consts = {n: (z3.Int if k == "int" else z3.Real)("g:" + n)
                              for n, k in c.ghosts.items()}
         st = State()
